@@ -100,9 +100,11 @@ pub fn run_program(b: &Value, id: u64) -> RunOut {
         Condvar::new(),
     ));
     let mut handles = Vec::new();
+    let rets = Arc::new(std::sync::atomic::AtomicUsize::new(0));
     for (t, prog) in progs.iter().enumerate() {
         let (sh2, log2, cache2, clock2, prog2, weigher) =
             (sh.clone(), log.clone(), cache.clone(), clock.clone(), prog.clone(), cfg.weigher);
+        let rets2 = rets.clone();
         handles.push(std::thread::spawn(move || {
             let sh3 = sh2.clone();
             mini_moka::verif::set_point_handler(Some(Arc::new(move |tag| park(&sh3, t, tag))));
@@ -170,6 +172,7 @@ pub fn run_program(b: &Value, id: u64) -> RunOut {
                     break;
                 }
                 log2.lock().unwrap().push(json!({"ev": "Ret", "t": t + 1, "id": opid, "r": r, "now": tick()}));
+                rets2.fetch_add(1, std::sync::atomic::Ordering::SeqCst);
             }
             mini_moka::verif::set_point_handler(None);
             let (m, cv) = &*sh2;
@@ -180,6 +183,11 @@ pub fn run_program(b: &Value, id: u64) -> RunOut {
 
     // the controller
     let (m, cv) = &*sh;
+    // "budget": the number of operations the other threads may complete during ONE maintenance run
+    // (counted while everything is parked); reported as a MaintRun event
+    let budget = b.get("budget").and_then(|x| x.as_u64());
+    let mut run_base = 0usize;
+    let mut max_run_others = 0usize;
     let wait_quiescent = |deadline: Duration| -> Option<Vec<St>> {
         let start = Instant::now();
         let mut g = m.lock().unwrap();
@@ -225,6 +233,9 @@ pub fn run_program(b: &Value, id: u64) -> RunOut {
                 break;
             }
         };
+        if in_maint.is_some() {
+            max_run_others = max_run_others.max(rets.load(std::sync::atomic::Ordering::SeqCst) - run_base);
+        }
         // leaving maintenance: the thread parked outside it again, or finished
         if let Some(t) = in_maint {
             match &st[t] {
@@ -324,6 +335,7 @@ pub fn run_program(b: &Value, id: u64) -> RunOut {
         if let St::Parked(tag) = &st[t] {
             if *tag == "sync.lock" {
                 in_maint = Some(t);
+                run_base = rets.load(std::sync::atomic::Ordering::SeqCst);
             } else if *tag == "m.end" && in_maint == Some(t) {
                 // this step publishes the counters and releases the mutex: the thread's next
                 // park is outside maintenance even if its tag is sync.lock again (a following sync())
@@ -340,6 +352,9 @@ pub fn run_program(b: &Value, id: u64) -> RunOut {
         g.grant[t] = true;
         g.st[t] = St::Running;
         cv.notify_all();
+    }
+    if let Some(bud) = budget {
+        log.lock().unwrap().push(json!({"ev": "MaintRun", "max_others": max_run_others, "budget": bud}));
     }
     let mut hang = false;
     if abandoned {
